@@ -3,7 +3,8 @@ import PnVerif.Model.IdTable
   C17 correspondence driver: same request lines as harness/c17_life.c, answered by the id-table model
   (Model/IdTable.lean) with a small per-file object (counts, mode flags, pending requests).
 
-    CFG <nullCheck 0|1> <NC_MAX_NFILES>      selects the PNC_check_id variant the library follows
+    CFG <nullCheck 0|1> <NC_MAX_NFILES> [<abortCancels 0|1>]   selects the code variants the library follows
+                                             (PNC_check_id with/without NULL test; ncmpio_abort with/without cancel)
     (all other requests: see harness/c17_life.c)
 -/
 open PnVerif.IdTable
@@ -18,14 +19,26 @@ structure FSt where
   indef : Bool := false
   fresh : Bool := false      -- created, initial define mode never left: abort deletes the file
   rdonly : Bool := false
-  pending : Nat := 0
+  /-- SETUP done: variables fx rc sm rs exist -/
+  io : Bool := false
+  /-- pending nonblocking get / put requests (put includes bput), pending bput, pending puts on record variables -/
+  pget : Nat := 0
+  pput : Nat := 0
+  pbput : Nat := 0
+  precput : Nat := 0
+  /-- number of records (numrecs) -/
+  nrecs : Nat := 0
   attached : Bool := false
+  /-- bytes of the attached buffer in use -/
+  abufUsed : Nat := 0
 
 structure W where
   nullCheck : Bool := false
+  /-- code variant: ncmpio_abort cancels pending requests and reports NC_EPENDING like ncmpio_close -/
+  abortCancels : Bool := false
   tab : Tab FSt := init FSt 1024
   exist : List Bool := List.replicate 8 false
-  store : List (Nat × Nat × Nat) := List.replicate 8 (0, 0, 0)
+  store : List (Nat × Nat × Nat × Nat × Bool) := List.replicate 8 (0, 0, 0, 0, false)
 
 def nat! (s : String) : Nat := s.toNat?.getD 0
 def int! (s : String) : Int := s.toInt?.getD 0
@@ -38,17 +51,21 @@ def outStr : Outcome → String
 def callFn (kind : String) : Option (FSt → FSt × Int) :=
   match kind with
   | "NDIMS" | "NVARS" | "INQPATH" | "INQFORMAT" => some (fun p => (p, 0))
-  | "INQATT" | "GETVAR" | "WAITALL" | "BEGININDEP" => some (fun p => (p, 0))   -- used in probes of closed ids only
+  | "INQATT" | "GETVAR" | "BEGININDEP" => some (fun p => (p, 0))   -- used in probes of closed ids only
   | "DEFDIM" => some (fun p => if p.indef then ({ p with ndims := p.ndims + 1 }, 0) else (p, -38))
   | "DEFVAR" => some (fun p => if p.indef then ({ p with nvars := p.nvars + 1 }, 0) else (p, -38))
   | "PUTATT" => some (fun p => if p.rdonly then (p, -37) else if p.indef then ({ p with natts := p.natts + 1 }, 0) else (p, -38))
   | "ENDDEF" => some (fun p => if p.indef then ({ p with indef := false, fresh := false }, 0) else (p, -38))
   | "REDEF" => some (fun p => if p.rdonly then (p, -37) else if p.indef then (p, -39) else ({ p with indef := true }, 0))
   | "SYNC" => some (fun p => if p.indef then (p, -39) else (p, 0))
-  | "IPUT" => some (fun p => if p.rdonly then (p, -37) else if p.indef then (p, -39) else if p.nvars = 0 then (p, -49)
-                            else ({ p with pending := p.pending + 1 }, 0))
-  | "ATTACH" => some (fun p => if p.attached then (p, -216) else ({ p with attached := true }, 0))
-  | "DETACH" => some (fun p => if p.attached then ({ p with attached := false }, 0) else (p, -217))
+  | "SETUP" => some (fun p => if p.indef then ({ p with ndims := p.ndims + 3, nvars := p.nvars + 4, io := true }, 0) else (p, -38))
+  | "IPUTFX" => some (fun p => (p, 0))   -- used in probes of closed ids only
+  | "ATTACH" => some (fun p => if p.attached then (p, -216) else ({ p with attached := true, abufUsed := 0 }, 0))
+  | "DETACH" => some (fun p => if ¬ p.attached then (p, -217) else if p.pbput > 0 then (p, -218)
+                              else ({ p with attached := false }, 0))
+  | "WAITALL" => some (fun p => if p.indef then (p, -39)
+                               else ({ p with pget := 0, pput := 0, pbput := 0, precput := 0, abufUsed := 0,
+                                              nrecs := if p.precput > 0 then max p.nrecs 1 else p.nrecs }, 0))
   | _ => none
 
 /-- the value printed after the error code by value-returning calls -/
@@ -66,7 +83,24 @@ def badVal (kind : String) : String :=
   | "INQPATH" => " -"
   | _ => ""
 
-def closeErr (p : FSt) : Int := (closeStatus 0 0 0 p.pending 0 0 0).1
+def closeErr (p : FSt) : Int := (closeStatus 0 0 p.pget p.pput 0 0 0).1
+
+/-- nonblocking request on one of the SETUP variables (IOP id kind var) -/
+def iopFn (kind var : String) : FSt → FSt × Int := fun p =>
+  let isPut := kind != "IGET"
+  let isRec := var == "rc" ∨ var == "rs"
+  let nbytes : Nat := if var == "fx" ∨ var == "rc" then 8192 else 32
+  if ¬ p.io then (p, -49)
+  else if isPut ∧ p.rdonly then (p, -37)
+  else if p.indef then (p, -39)
+  else if kind == "IGET" then
+    (if isRec ∧ p.nrecs = 0 then (p, -40) else ({ p with pget := p.pget + 1 }, 0))
+  else if kind == "BPUT" then
+    (if ¬ p.attached then (p, -217)
+     else if 65536 - p.abufUsed < nbytes then (p, -219)
+     else ({ p with pput := p.pput + 1, pbput := p.pbput + 1, abufUsed := p.abufUsed + nbytes,
+                    precput := if isRec then p.precput + 1 else p.precput }, 0))
+  else ({ p with pput := p.pput + 1, precput := if isRec then p.precput + 1 else p.precput }, 0)
 
 def doCreate (w : W) (p : FSt) (derr : Int) : W × String :=
   let (t, o, id) := step w.nullCheck w.tab (.create p derr)
@@ -75,16 +109,17 @@ def doCreate (w : W) (p : FSt) (derr : Int) : W × String :=
 /-- in-process call on id; `probe`: executed in a forked child, so no state change survives -/
 def doCall (w : W) (id : Int) (kind : String) (probe : Bool) : W × String :=
   if kind == "CLOSE" ∨ kind == "ABORT" then
-    let f : FSt → Int := if kind == "CLOSE" then closeErr else fun _ => 0
+    let f : FSt → Int := if kind == "CLOSE" ∨ w.abortCancels then closeErr else fun _ => 0
     match checkId w.nullCheck w.tab id with
     | .ok p =>
       if probe then (w, "probe-on-open-id") else
       let (t, o, _) := step w.nullCheck w.tab (.close id f)
       let w := { w with tab := t }
-      let w := if kind == "CLOSE" then { w with store := w.store.set p.k (p.ndims, p.nvars, p.natts) }
+      let w := if kind == "CLOSE" then { w with store := w.store.set p.k (p.ndims, p.nvars, p.natts, p.nrecs, p.io) }
                else if p.fresh then { w with exist := w.exist.set p.k false }
+               else if ¬ p.indef then { w with store := w.store.set p.k (p.ndims, p.nvars, p.natts, p.nrecs, p.io) }
                else w
-      (w, outStr o)
+      (w, outStr o ++ (if p.pput > 0 then " bufs=ok" else ""))
     | _ =>
       let (_, o, _) := step w.nullCheck w.tab (.close id f)
       (w, outStr o)
@@ -97,8 +132,9 @@ def doCall (w : W) (id : Int) (kind : String) (probe : Bool) : W × String :=
         let (t, o, _) := step w.nullCheck w.tab (.call id f)
         let p' := (f p).1
         let w := { w with tab := t }
-        let w := if kind == "ENDDEF" ∧ (f p).2 = 0 then { w with store := w.store.set p.k (p'.ndims, p'.nvars, p'.natts) } else w
-        (w, outStr o ++ (if (f p).2 = 0 then callVal kind p' else badVal kind))
+        let w := if kind == "ENDDEF" ∧ (f p).2 = 0 then { w with store := w.store.set p.k (p'.ndims, p'.nvars, p'.natts, p'.nrecs, p'.io) } else w
+        (w, outStr o ++ (if (f p).2 = 0 then callVal kind p' else badVal kind) ++
+            (if kind == "WAITALL" ∧ (f p).2 = 0 ∧ p.pput > 0 then " bufs=ok" else ""))
       | _ =>
         let (_, o, _) := step w.nullCheck w.tab (.call id f)
         (w, match o with | .crash => "SIG11" | .ret e => toString e ++ badVal kind)
@@ -109,22 +145,23 @@ def occupied (t : Tab FSt) : List (Nat × FSt) :=
 def stepLine (w : W) (line : String) : W × String :=
   match line.trimAscii.toString.splitOn " " with
   | ["CFG", b, n] => ({ w with nullCheck := b == "1", tab := init FSt (nat! n) }, "cfg")
+  | ["CFG", b, n, a] => ({ w with nullCheck := b == "1", abortCancels := a == "1", tab := init FSt (nat! n) }, "cfg")
   | ["CREATE", k] =>
     let k := nat! k % 8
     let (w, s) := doCreate w { k := k, indef := true, fresh := true } 0
-    if s.startsWith "0 " then ({ w with exist := w.exist.set k true, store := w.store.set k (0, 0, 0) }, s) else (w, s)
+    if s.startsWith "0 " then ({ w with exist := w.exist.set k true, store := w.store.set k (0, 0, 0, 0, false) }, s) else (w, s)
   | ["CREATEX", k] =>
     let k := nat! k % 8
     if (w.exist[k]?).getD false then doCreate w { k := k } (-35)
     else
       let (w, s) := doCreate w { k := k, indef := true, fresh := true } 0
-      if s.startsWith "0 " then ({ w with exist := w.exist.set k true, store := w.store.set k (0, 0, 0) }, s) else (w, s)
+      if s.startsWith "0 " then ({ w with exist := w.exist.set k true, store := w.store.set k (0, 0, 0, 0, false) }, s) else (w, s)
   | ["OPEN", k, wr] =>
     let k := nat! k % 8
     if ¬ (w.exist[k]?).getD false then (w, "-220 -1")      -- ncmpi_inq_file_format fails before an id is taken
     else
-      let (nd, nv, na) := (w.store[k]?).getD (0, 0, 0)
-      doCreate w { k := k, ndims := nd, nvars := nv, natts := na, rdonly := wr == "0" } 0
+      let (nd, nv, na, nr, io) := (w.store[k]?).getD (0, 0, 0, 0, false)
+      doCreate w { k := k, ndims := nd, nvars := nv, natts := na, nrecs := nr, io := io, rdonly := wr == "0" } 0
   | ["OPENJUNK"] => (w, "FAIL -1")
   | ["OPENMISSING"] => (w, "FAIL -1")
   | ["CREATEBAD", v] =>
@@ -136,7 +173,7 @@ def stepLine (w : W) (line : String) : W × String :=
   | ["PROBE", id, kind] => doCall w (int! id) kind true
   | ["FILL", k, n] =>
     let k := nat! k % 8
-    let (nd, nv, na) := (w.store[k]?).getD (0, 0, 0)
+    let (nd, nv, na, _, _) := (w.store[k]?).getD (0, 0, 0, 0, false)
     let rec go (w : W) (n : Nat) (acc : List String) : W × List String :=
       match n with
       | 0 => (w, acc.reverse)
@@ -145,6 +182,13 @@ def stepLine (w : W) (line : String) : W × String :=
         go { w with tab := t } n (s!"{outStr o}:{id}" :: acc)
     let (w, l) := go w (nat! n) []
     (w, " ".intercalate l)
+  | ["IOP", id, kind, var] =>
+    match checkId w.nullCheck w.tab (int! id) with
+    | .ok _ =>
+      let (t, o, _) := step w.nullCheck w.tab (.call (int! id) (iopFn kind var))
+      ({ w with tab := t }, outStr o)
+    | .badid => (w, "-33")
+    | .null => (w, "SIG11")
   | ["SNAP"] =>
     let occ := occupied w.tab
     (w, s!"0 {w.tab.num}" ++ String.join (occ.map (fun (i, p) => s!" {i}:{p.ndims}:{p.nvars}:{p.natts}")))
